@@ -83,4 +83,19 @@ structure AcceptSelect where
   recognised : Bool := true
   deriving DecidableEq, Repr
 
+/-- What stands between the caller's `ServerConfig` and the `match (self.config.disable_https, listener)` of
+`start_on` (regenerated, plugin `c20_ctor`). -/
+structure ServerCtor where
+  /-- `new_mpc` / `new_shards` end in `IpaHttpServer { config, network_config, router }` with `config` the
+  parameter, untouched; no other struct literal of `IpaHttpServer` exists outside tests -/
+  storesConfig : Bool
+  /-- nothing under net/server/** assigns to `disable_https` / `tls` or borrows a server config mutably -/
+  neverAssigned : Bool
+  /-- every rustls arm of `start_on` does `rustls_config(&self.config, ..).await.expect("invalid TLS
+  configuration")` and `certificate_and_key` answers `Err` for `tls == None` -/
+  tlsNeedsMaterial : Bool
+  /-- `false`: shape not recognised by the translator; the other fields are the fallback -/
+  recognised : Bool := true
+  deriving DecidableEq, Repr
+
 end IpaVerif.Auth
